@@ -123,5 +123,18 @@ PROPS["C17"] = {
     "technique": "runtime monitoring: model-based history checking with full-state probes after every operation",
 }
 
+PROPS["C16"] = {
+    "level": "exploration",
+    "engines": [
+        {"bin": "hv", "args": ["c16"]},
+    ],
+    "min": {"quick": {"exhaustive_sequences": 3_900_000, "concurrent_histories": 200, "concurrent_hits_checked": 1000, "handler_requests": 100, "real_sleeps": 2},
+            "thorough": {"exhaustive_sequences": 90_000_000}},
+    "assumptions": [],
+    "level_text": "Every operation sequence of length 4 (5 thorough) over 3 keys x 2 hosts x 3 sizes is executed on the real Cache for 12 limit configurations with a shadow-map monitor probing all keys after every operation; long random sequences, concurrent histories through the RwLock (per-key interval check) and the two real handlers over changing files complete the picture.",
+    "level_note": "Trusted: the shadow map and interval checker in c16.rs; the one-second cache clock bounds what can be said about staleness (limit + 1 s).",
+    "technique": "runtime monitoring: shadow-state monitor over bounded-exhaustive operation sequences; offline interval (linearizability-style) check of concurrent histories",
+}
+
 # properties without a check, with the reason (kept current)
 NOT_CLAIMED = {}
